@@ -325,6 +325,60 @@ fn after_refusal_cell(idx: u64, rec: &mut Rec) {
     }
 }
 
+/// A request that says `Connection: close` is redirected. Whether the request the redirect leads to still says so
+/// is the crate's business (it inherits the original's fields); the verdict of THAT exchange follows what that
+/// request carried on the wire - read back from the bytes written - and nothing else (no other condition holds).
+fn close_across_redirect_cell(idx: u64, rec: &mut Rec) {
+    use ureq_proto::client::flow::RedirectAuthHeaders;
+    let status = [301u16, 302, 303, 307, 308][(idx % 5) as usize];
+    let loc = ["/moved", "http://other.test/m", "//h.test/again", "https://h.test/up", "http://h.test:8080/up", "//other.test"][(idx / 5 % 6) as usize];
+    let method = ["GET", "HEAD", "OPTIONS"][(idx / 30 % 3) as usize];
+    let own = ["close", "keep-alive", "upgrade"][(idx / 90 % 3) as usize];
+    let cfg = ReqCfg::new(method, "http://h.test/up").h("connection", own.as_bytes());
+    let redirect = format!("HTTP/1.1 {} Moved\r\nLocation: {}\r\nContent-Length: 0\r\n\r\n", status, loc).into_bytes();
+    let res = (|| -> Result<(bool, Vec<Vec<u8>>, bool, Option<&'static str>), String> {
+        let r = fast_to_recv(&cfg)?;
+        let (end, ..) = fast_response(r, &redirect)?;
+        let mut red = match end {
+            End::Redirect(r) => r,
+            End::Cleanup(_) => return Err("no redirect state".into()),
+        };
+        let first = red.must_close_connection();
+        let nf = red.as_new_flow(RedirectAuthHeaders::Never).map_err(|e| format!("{:?}", e))?.ok_or("not followed")?;
+        let mut s = nf.proceed();
+        let wire = write_head_big(&mut s).map_err(|e| format!("{:?}", e))?;
+        let head = parse_request_head_strict(&wire)?;
+        let conn: Vec<Vec<u8>> = head.headers.iter().filter(|(n, _)| n.eq_ignore_ascii_case("connection")).map(|(_, v)| v.clone()).collect();
+        let rr = to_recv_response(s, b"")?;
+        let (end, ..) = fast_response(rr, b"HTTP/1.1 200 OK\r\nContent-Length: 2\r\n\r\nok")?;
+        match end {
+            End::Cleanup(c) => Ok((first, conn, c.must_close_connection(), c.close_reason())),
+            End::Redirect(_) => Err("200 led to the redirect state".into()),
+        }
+    })();
+    rec.call();
+    rec.ev(|| format!("{} connection: {} answered {} Location {}, followed, answered 200 -> {:?}", method, own, status, loc, res));
+    match res {
+        Err(e) => rec.fail("C10/setup", e),
+        Ok((first_close, conn, second_close, second_reason)) => {
+            if first_close != (own == "close") {
+                return rec.fail(
+                    if first_close { "C10/verdict-close-demanded-without-condition" } else { "C10/verdict-reuse-offered-but-must-close" },
+                    format!("the redirected exchange (request said connection: {}): must_close = {} at Redirect", own, first_close),
+                );
+            }
+            let carried = conn.iter().any(|v| v == b"close");
+            rec.cov(&format!("close-across-redirect/second-request-{}", if carried { "says-close" } else { "does-not-say-close" }));
+            if second_close != carried || second_reason.is_some() != carried {
+                rec.fail(
+                    if second_close { "C10/verdict-close-demanded-without-condition" } else { "C10/verdict-reuse-offered-but-must-close" },
+                    format!("the request the redirect led to carried Connection fields {:?} on the wire (HTTP/1.1, 200 with a length, no other condition): must_close = {} reason = {:?}", conn.iter().map(|v| String::from_utf8_lossy(v).to_string()).collect::<Vec<_>>(), second_close, second_reason),
+                );
+            }
+        }
+    }
+}
+
 /// The opt-in for truncated redirect heads must not touch a head that is complete, however its lines end: a 3xx whose
 /// line ends are bare LF (accepted by the parser) is complete, nothing was lost, and no condition holds.
 fn opt_in_complete_cell(idx: u64, rec: &mut Rec) {
@@ -448,7 +502,7 @@ impl Property for P {
         "C10"
     }
     fn rule(&self) -> String {
-        "exhaustive product realising the five close conditions: (method, request version) x request Connection {absent, close, keep-alive, two fields, some other token} x Expect handshake {none, 100 received, gave up, refused bare, refused with fields} x response version x status {200, 302, 404, 307, 102, 417} x framing {length, chunked, bare, zero length} x response Connection {absent, close, keep-alive, two fields either order, some other token} x {no, one} unsolicited 100 Continue in front of the final response; every cell is a full exchange driven to Cleanup (through Redirect for 3xx), once with one-shot I/O and again under random segmentation schedules; must_close_connection()/close_reason() at Redirect and Cleanup are compared with the disjunction computed from the description. Methods: GET/HEAD/DELETE/POST/PUT/CONNECT/OPTIONS/PATCH; a third of the cells add an unrelated header through Flow::header() in Prepare. class = condition bit-vector x exit path. after-refusal-by-redirect: the request a refusing 3xx leads to is an exchange of its own and ends reusable. opt-in-complete-heads: a complete head (CRLF or bare LF) under the opt-in closes only if a condition holds. A quarter of the cells put an empty-valued field in front of the Connection fields.".into()
+        "exhaustive product realising the five close conditions: (method, request version) x request Connection {absent, close, keep-alive, two fields, some other token} x Expect handshake {none, 100 received, gave up, refused bare, refused with fields} x response version x status {200, 302, 404, 307, 102, 417} x framing {length, chunked, bare, zero length} x response Connection {absent, close, keep-alive, two fields either order, some other token} x {no, one} unsolicited 100 Continue in front of the final response; every cell is a full exchange driven to Cleanup (through Redirect for 3xx), once with one-shot I/O and again under random segmentation schedules; must_close_connection()/close_reason() at Redirect and Cleanup are compared with the disjunction computed from the description. Methods: GET/HEAD/DELETE/POST/PUT/CONNECT/OPTIONS/PATCH; a third of the cells add an unrelated header through Flow::header() in Prepare. class = condition bit-vector x exit path. after-refusal-by-redirect: the request a refusing 3xx leads to is an exchange of its own and ends reusable. close-across-redirect: a request with its own Connection field redirected to the same or another authority - the next exchange closes exactly if the request written for it says close. opt-in-complete-heads: a complete head (CRLF or bare LF) under the opt-in closes only if a condition holds. A quarter of the cells put an empty-valued field in front of the Connection fields.".into()
     }
     fn assumptions(&self) -> Vec<String> {
         vec![
@@ -463,6 +517,7 @@ impl Property for P {
             Workload::new("scheduled", CELLS * tier.pick(2, 60), false, "every cell again under seeded random I/O schedules"),
             Workload::new("open-framing-cells", 3 * 6 * 4 * 2, true, "3xx whose framing the statement leaves open: if the flow calls the body close-delimited it must close"),
             Workload::new("after-refusal-by-redirect", 36, true, "Expect refused by a 301/302/303 (seen while awaiting, or after giving up): the request it leads to is an exchange of its own and ends reusable"),
+            Workload::new("close-across-redirect", 5 * 6 * 3 * 3, true, "a request with its own Connection field is redirected (same and other authority): the verdict of the next exchange follows what that request carried on the wire"),
             Workload::new("opt-in-complete-heads", 32, true, "allow_partial_redirect(true) and complete heads with CRLF or bare-LF line ends: nothing was lost, no condition holds"),
             Workload::new("partial-redirect-opt-in", 3 * 4 * 4 * 2 * 4, true, "allow_partial_redirect(true): truncated 3xx heads with their own Connection fields; the lost boundary must force close"),
         ]
@@ -476,6 +531,8 @@ impl Property for P {
             partial_redirect_cell(idx, rec)
         } else if wl == "after-refusal-by-redirect" {
             after_refusal_cell(idx, rec)
+        } else if wl == "close-across-redirect" {
+            close_across_redirect_cell(idx, rec)
         } else if wl == "opt-in-complete-heads" {
             opt_in_complete_cell(idx, rec)
         } else {
@@ -483,7 +540,7 @@ impl Property for P {
         }
     }
     fn floors(&self, _tier: Tier) -> Vec<(String, u64)> {
-        let mut v = vec![("partial-redirect/accepted/*".to_string(), 50), ("open-framing/*".to_string(), 100), ("after-unsolicited-100".to_string(), 1000), ("http10-response-with-ignored-chunked".to_string(), 100)];
+        let mut v = vec![("partial-redirect/accepted/*".to_string(), 50), ("open-framing/*".to_string(), 100), ("after-unsolicited-100".to_string(), 1000), ("close-across-redirect/*".to_string(), 30), ("http10-response-with-ignored-chunked".to_string(), 100)];
         // all 32 vectors must occur on the Cleanup path, the 16 without close-delimited on Redirect
         for m in 0..32u32 {
             let id: String = (0..5).map(|i| if m & (1 << i) != 0 { '1' } else { '0' }).collect();
